@@ -49,7 +49,7 @@ func c13AggOne(ctx *core.Ctx, ref core.CaseRef, r *rand.Rand) {
 	}
 	cd := conds[ref.Index%len(conds)]
 	c := &c13AggCase{CaseRef: ref, Cond: cd.text, N: pick(r, []int{1, 1, 2, 3})}
-	c.SQL = fmt.Sprintf("SELECT last_value(id) AS id, count(*) AS c, sum(CASE WHEN %s THEN 1 ELSE 0 END) AS m FROM stream GROUP BY CountingWindow(%d)", cd.text, c.N)
+	c.SQL = fmt.Sprintf("SELECT last_value(id) AS id, count(*) AS c, sum(CASE WHEN %s THEN 1 ELSE 0 END) AS m, max(u) IS NULL AS mn, max(u) IS NOT NULL AS mnn FROM stream GROUP BY CountingWindow(%d)", cd.text, c.N)
 	nb := 6 + r.Intn(10)
 	texts := []string{"a", "ab", "b", "a.b", "", "abc", "ba", "x.y"}
 	for i := 1; i <= nb*c.N; i++ {
@@ -88,7 +88,11 @@ func c13AggOne(ctx *core.Ctx, ref core.CaseRef, r *rand.Rand) {
 	nT := 0
 	for b := 0; b < nb; b++ {
 		want, bare := 0, 0
+		anyU := false
 		for _, row := range c.Rows[b*c.N : (b+1)*c.N] {
+			if v, ok := row["u"]; ok && v != nil {
+				anyU = true
+			}
 			if cd.ref(row) {
 				want++
 				nT++
@@ -104,6 +108,19 @@ func c13AggOne(ctx *core.Ctx, ref core.CaseRef, r *rand.Rand) {
 		}
 		ctx.Count("aggcase.batches_checked", 1)
 		ctx.Count("aggcase.rows_without_the_column", int64(bare))
+		if gn, ok1 := out["mn"].(bool); !ok1 || gn != !anyU {
+			a2 := map[string]string{"site": "select_over_aggregate", "cond": "isnull"}
+			ctx.Violate(core.Violation{Kind: "aggselect.wrong_answer", Attrs: a2,
+				Detail: fmt.Sprintf("batch of rows %d..%d: `max(u) IS NULL` = %#v (and `max(u) IS NOT NULL` = %#v), expected %v / %v: u is %s in the batch %s\n  sql: %s",
+					b*c.N+1, (b+1)*c.N, out["mn"], out["mnn"], !anyU, anyU, map[bool]string{true: "present", false: "absent or NULL everywhere"}[anyU], core.J(c.Rows[b*c.N:(b+1)*c.N]), c.SQL), Case: c})
+			return
+		}
+		if gnn, ok2 := out["mnn"].(bool); !ok2 || gnn != anyU {
+			a2 := map[string]string{"site": "select_over_aggregate", "cond": "isnotnull"}
+			ctx.Violate(core.Violation{Kind: "aggselect.wrong_answer", Attrs: a2,
+				Detail: fmt.Sprintf("batch of rows %d..%d: `max(u) IS NOT NULL` = %#v, expected %v\n  sql: %s", b*c.N+1, (b+1)*c.N, out["mnn"], anyU, c.SQL), Case: c})
+			return
+		}
 		if !numEq(out["m"], want) {
 			ctx.Violate(core.Violation{Kind: "aggcase.wrong_count", Attrs: attrs,
 				Detail: fmt.Sprintf("batch of rows %d..%d: sum(CASE WHEN %s THEN 1 ELSE 0 END) = %v, the condition is true for %d of its %d rows (%d of them carry no column %s at all): rows %s\n  sql: %s",
@@ -111,5 +128,6 @@ func c13AggOne(ctx *core.Ctx, ref core.CaseRef, r *rand.Rand) {
 			return
 		}
 	}
+	_ = nT
 	ctx.Case("aggcase"+c.SQL+core.J(c.Rows), nT > 0 && nT < len(c.Rows), nil)
 }
